@@ -199,7 +199,7 @@ def oom_matrix(tier):
 
 def _crash_key(row, run):
     loc = row.get("loc", "")
-    loc = re.sub(r"^/repo/", "", loc)
+    loc = re.sub(r"^(/.*)?/repo/", "", loc)
     loc = re.sub(r":\d+$", "", loc)
     msg = re.sub(r"0x[0-9a-fA-F]+|\d+", "#", row.get("msg", ""))[:80]
     return "crash:%s:%s:%s" % (run.plan, loc, msg)
